@@ -2438,7 +2438,8 @@ impl TypeIdentifier {
         type_consistency: &TypeConsistencyEnforcementQosPolicy,
     ) -> bool {
         match self {
-            TypeIdentifier::TkNone => todo!(),
+            // A type this implementation cannot compare is not assignable (the identifier may come from a remote participant)
+            TypeIdentifier::TkNone => false,
             TypeIdentifier::TkBoolean => matches!(other, TypeIdentifier::TkBoolean),
             TypeIdentifier::TkByteType => matches!(
                 other,
@@ -2617,9 +2618,9 @@ impl TypeIdentifier {
                 }
                 _ => false,
             },
-            TypeIdentifier::TiPlainMapSmall { map_sdefn: _ } => todo!(),
-            TypeIdentifier::TiPlainMapLarge { map_ldefn: _ } => todo!(),
-            TypeIdentifier::TiStronglyConnectedComponent { sc_component_id: _ } => todo!(),
+            TypeIdentifier::TiPlainMapSmall { map_sdefn: _ } => false,
+            TypeIdentifier::TiPlainMapLarge { map_ldefn: _ } => false,
+            TypeIdentifier::TiStronglyConnectedComponent { sc_component_id: _ } => false,
             TypeIdentifier::EkComplete { .. } => matches!(
                 other,
                 TypeIdentifier::EkComplete { .. }
@@ -2646,7 +2647,7 @@ impl TypeIdentifier {
                     | TypeIdentifier::TkInt64Type
                     | TypeIdentifier::TkUint64Type
             ),
-            TypeIdentifier::Default { extended_type: _ } => todo!(),
+            TypeIdentifier::Default { extended_type: _ } => false,
         }
     }
 }
